@@ -64,7 +64,11 @@ func (t1 *Taskfile) Merge(t2 *Taskfile, include *Include) error {
 	// The included tasks remember the variables of the Taskfile they come from
 	// (t2), not the merged variables of the including Taskfile: those are the
 	// global variables, which rank below the vars of the include statement.
-	return t1.Tasks.Merge(t2.Tasks, include, t2.Vars)
+	// The variables of the included Taskfile as they are seen through this
+	// include (t2 itself may be included again with another directory)
+	includedTaskfileVars := NewVars()
+	includedTaskfileVars.Merge(t2.Vars, include)
+	return t1.Tasks.Merge(t2.Tasks, include, includedTaskfileVars)
 }
 
 // scalarKeys rejects mappings with non-scalar keys anywhere below node (the YAML
